@@ -8,6 +8,7 @@ import (
 	"regexp"
 	"sort"
 	"strings"
+	"sync"
 	"time"
 )
 
@@ -42,7 +43,18 @@ func LoadClaims(verif, prop string) (*ClaimsFile, error) {
 	return &c, nil
 }
 
+var globCache sync.Map
+
 func globToRe(g string) *regexp.Regexp {
+	if re, ok := globCache.Load(g); ok {
+		return re.(*regexp.Regexp)
+	}
+	re := globToReUncached(g)
+	globCache.Store(g, re)
+	return re
+}
+
+func globToReUncached(g string) *regexp.Regexp {
 	parts := strings.Split(g, "*")
 	for i, p := range parts {
 		parts[i] = regexp.QuoteMeta(p)
